@@ -138,11 +138,13 @@ fn cgfx_image() -> [u8; CGFX_LEN] {
 // @mem 12
 // @bounds one 8x8 L8 texture named "tex" in a hand-laid-out CTPK image (tables, name and payload non-adjacent); probed pixel symbolic
 // @cbmc --max-field-sensitivity-array-size 512
+// @unwindset memchr=400
 // @claims CTPK: one texture with the stored name and dimensions; pixel data equal to the decoding of its own payload
-// @assume encoding_rs decode replaced by the 7-bit model (stubs.rs): ASCII names
+// @assume encoding_rs decode replaced by the 7-bit model and core::slice::memchr::memchr by a plain loop (stubs.rs): ASCII names
 #[kani::proof]
 #[kani::unwind(70)]
 #[kani::stub(encoding_rs::Encoding::decode, crate::stubs::decode_ascii_model)]
+#[kani::stub(core::slice::memchr::memchr, crate::stubs::memchr_model)]
 fn c20_ctpk_single_texture() {
     let img = ctpk_image();
     let t = keep(mila::ctpk::read(&img)).unwrap();
@@ -155,11 +157,13 @@ fn c20_ctpk_single_texture() {
 // @mem 12
 // @bounds one 8x8 L8 texture named "tex" in a hand-laid-out BCH image; probed pixel symbolic
 // @cbmc --max-field-sensitivity-array-size 512
+// @unwindset memchr=400
 // @claims BCH: one texture with the stored name and dimensions; pixel data equal to the decoding of its own payload
 // @assume encoding_rs decode replaced by the 7-bit model (stubs.rs)
 #[kani::proof]
 #[kani::unwind(70)]
 #[kani::stub(encoding_rs::Encoding::decode, crate::stubs::decode_ascii_model)]
+#[kani::stub(core::slice::memchr::memchr, crate::stubs::memchr_model)]
 fn c20_bch_single_texture() {
     let img = bch_image();
     let t = keep(mila::bch::read(&img)).unwrap();
@@ -172,11 +176,13 @@ fn c20_bch_single_texture() {
 // @mem 12
 // @bounds one 8x8 L8 texture named "tex" in a hand-laid-out CGFX image (DATA -> DICT -> TXOB chain with self-relative offsets); probed pixel symbolic
 // @cbmc --max-field-sensitivity-array-size 512
+// @unwindset memchr=400
 // @claims CGFX: one texture with the stored name and dimensions; pixel data equal to the decoding of its own payload
 // @assume encoding_rs decode replaced by the 7-bit model (stubs.rs)
 #[kani::proof]
 #[kani::unwind(70)]
 #[kani::stub(encoding_rs::Encoding::decode, crate::stubs::decode_ascii_model)]
+#[kani::stub(core::slice::memchr::memchr, crate::stubs::memchr_model)]
 fn c20_cgfx_single_texture() {
     let img = cgfx_image();
     let t = keep(mila::cgfx::read(&img)).unwrap();
@@ -187,68 +193,124 @@ fn c20_cgfx_single_texture() {
 // @tier quick
 // @timeout 1200
 // @mem 12
-// @bounds BCH and CGFX images whose magic number is any 32-bit value other than the expected one (symbolic); rest of the image as in the single-texture harnesses
+// @bounds BCH and CGFX single-texture images whose magic number is replaced by 0, the expected value with its lowest / highest bit flipped, the byte-swapped expected value, or 0xFFFFFFFF (solver-chosen arm)
+// @unwindset memchr=400
 // @cbmc --max-field-sensitivity-array-size 512
 // @claims BCH and CGFX input with a wrong magic number is rejected
-// @assume encoding_rs decode replaced by the 7-bit model (stubs.rs)
+// @assume encoding_rs decode replaced by the 7-bit model and core::slice::memchr::memchr by a plain loop (stubs.rs)
 #[kani::proof]
 #[kani::unwind(70)]
 #[kani::stub(encoding_rs::Encoding::decode, crate::stubs::decode_ascii_model)]
+#[kani::stub(core::slice::memchr::memchr, crate::stubs::memchr_model)]
 fn c20_wrong_magic() {
-    let magic: u32 = kani::any();
-    let cgfx: bool = kani::any();
-    if cgfx {
-        kani::assume(magic != 0x5846_4743);
-        let mut img = cgfx_image();
-        put32(&mut img, 0, magic);
-        assert!(keep(mila::cgfx::read(&img)).is_none(), "C20: CGFX input with a wrong magic number must be rejected");
-    } else {
-        kani::assume(magic != 0x0048_4342);
-        let mut img = bch_image();
-        put32(&mut img, 0, magic);
-        assert!(keep(mila::bch::read(&img)).is_none(), "C20: BCH input with a wrong magic number must be rejected");
-    }
-    kani::cover!(cgfx);
+    let sel: u8 = kani::any();
+    kani::assume(sel < 10);
+    // literal magic per arm (a magic computed from `sel` would be symbolic for the parser)
+    if sel == 0 { wrong_bch(0); }
+    if sel == 1 { wrong_bch(0x0048_4342 ^ 1); }
+    if sel == 2 { wrong_bch(0x0048_4342 ^ 0x8000_0000); }
+    if sel == 3 { wrong_bch(0x4243_4800); }
+    if sel == 4 { wrong_bch(0xFFFF_FFFF); }
+    if sel == 5 { wrong_cgfx(0); }
+    if sel == 6 { wrong_cgfx(0x5846_4743 ^ 1); }
+    if sel == 7 { wrong_cgfx(0x5846_4743 ^ 0x8000_0000); }
+    if sel == 8 { wrong_cgfx(0x4347_4658); }
+    if sel == 9 { wrong_cgfx(0xFFFF_FFFF); }
+    kani::cover!(sel == 9);
+}
+
+fn wrong_bch(magic: u32) {
+    let mut img = bch_image();
+    put32(&mut img, 0, magic);
+    assert!(keep(mila::bch::read(&img)).is_none(), "C20: BCH input with a wrong magic number must be rejected");
+}
+
+fn wrong_cgfx(magic: u32) {
+    let mut img = cgfx_image();
+    put32(&mut img, 0, magic);
+    assert!(keep(mila::cgfx::read(&img)).is_none(), "C20: CGFX input with a wrong magic number must be rejected");
 }
 
 // @tier quick
 // @timeout 1800
-// @mem 12
-// @bounds strict prefixes of the CTPK / BCH / CGFX images at the cut points: empty, inside the header, inside the tables, inside the name, at the start, middle and last byte of the payload (solver-chosen arm)
+// @mem 16
+// @bounds strict prefixes of the CTPK single-texture image cut at: empty, inside the header, inside the info record, inside the name, at the payload start, one byte before the end (solver-chosen arm)
+// @unwindset memchr=400
 // @cbmc --max-field-sensitivity-array-size 512
 // @claims every such prefix is read without panicking and yields an error (each of these cuts removes part of the texture payload)
-// @assume encoding_rs decode replaced by the 7-bit model (stubs.rs)
+// @assume encoding_rs decode replaced by the 7-bit model and core::slice::memchr::memchr by a plain loop (stubs.rs)
 #[kani::proof]
 #[kani::unwind(70)]
 #[kani::stub(encoding_rs::Encoding::decode, crate::stubs::decode_ascii_model)]
-fn c20_truncated_prefixes() {
+#[kani::stub(core::slice::memchr::memchr, crate::stubs::memchr_model)]
+fn c20_ctpk_truncated_prefixes() {
     let sel: u8 = kani::any();
-    kani::assume(sel < 18);
-    let c = ctpk_image();
-    let b = bch_image();
-    let g = cgfx_image();
+    kani::assume(sel < 6);
+    let img = ctpk_image();
     let err = match sel {
-        0 => keep(mila::ctpk::read(&c[..0])).is_none(),
-        1 => keep(mila::ctpk::read(&c[..0x1F])).is_none(),
-        2 => keep(mila::ctpk::read(&c[..0x3F])).is_none(),
-        3 => keep(mila::ctpk::read(&c[..0x42])).is_none(),
-        4 => keep(mila::ctpk::read(&c[..0x80])).is_none(),
-        5 => keep(mila::ctpk::read(&c[..CTPK_LEN - 1])).is_none(),
-        6 => keep(mila::bch::read(&b[..0])).is_none(),
-        7 => keep(mila::bch::read(&b[..0x37])).is_none(),
-        8 => keep(mila::bch::read(&b[..0x66])).is_none(),
-        9 => keep(mila::bch::read(&b[..0xA2])).is_none(),
-        10 => keep(mila::bch::read(&b[..0xD0])).is_none(),
-        11 => keep(mila::bch::read(&b[..BCH_LEN - 1])).is_none(),
-        12 => keep(mila::cgfx::read(&g[..0])).is_none(),
-        13 => keep(mila::cgfx::read(&g[..0x13])).is_none(),
-        14 => keep(mila::cgfx::read(&g[..0x9B])).is_none(),
-        15 => keep(mila::cgfx::read(&g[..0x122])).is_none(),
-        16 => keep(mila::cgfx::read(&g[..0x150])).is_none(),
-        _ => keep(mila::cgfx::read(&g[..CGFX_LEN - 1])).is_none(),
+        0 => keep(mila::ctpk::read(&img[..0])).is_none(),
+        1 => keep(mila::ctpk::read(&img[..0x1F])).is_none(),
+        2 => keep(mila::ctpk::read(&img[..0x3F])).is_none(),
+        3 => keep(mila::ctpk::read(&img[..0x42])).is_none(),
+        4 => keep(mila::ctpk::read(&img[..0x80])).is_none(),
+        _ => keep(mila::ctpk::read(&img[..CTPK_LEN - 1])).is_none(),
     };
     assert!(err, "C20: a prefix that cuts into the texture payload must yield an error");
-    kani::cover!(sel == 17);
+    kani::cover!(sel == 5);
+}
+
+// @tier quick
+// @timeout 1800
+// @mem 16
+// @bounds strict prefixes of the BCH single-texture image cut at: empty, inside the header, inside the content table, at the payload start (solver-chosen arm)
+// @unwindset memchr=400
+// @cbmc --max-field-sensitivity-array-size 512
+// @claims every such prefix is read without panicking and yields an error (each of these cuts removes part of the texture payload)
+// @assume encoding_rs decode replaced by the 7-bit model and core::slice::memchr::memchr by a plain loop (stubs.rs)
+#[kani::proof]
+#[kani::unwind(70)]
+#[kani::stub(encoding_rs::Encoding::decode, crate::stubs::decode_ascii_model)]
+#[kani::stub(core::slice::memchr::memchr, crate::stubs::memchr_model)]
+fn c20_bch_truncated_prefixes() {
+    let sel: u8 = kani::any();
+    kani::assume(sel < 4);
+    let img = bch_image();
+    let err = match sel {
+        0 => keep(mila::bch::read(&img[..0])).is_none(),
+        1 => keep(mila::bch::read(&img[..0x37])).is_none(),
+        2 => keep(mila::bch::read(&img[..0x66])).is_none(),
+        _ => keep(mila::bch::read(&img[..0xD0])).is_none(),
+    };
+    assert!(err, "C20: a prefix that cuts into the texture payload must yield an error");
+    kani::cover!(sel == 3);
+}
+
+// @tier quick
+// @timeout 1800
+// @mem 16
+// @bounds strict prefixes of the CGFX single-texture image cut at: empty, inside the header, inside the DATA table, inside the name, inside the payload, one byte before the end (solver-chosen arm)
+// @unwindset memchr=400
+// @cbmc --max-field-sensitivity-array-size 512
+// @claims every such prefix is read without panicking and yields an error (each of these cuts removes part of the texture payload)
+// @assume encoding_rs decode replaced by the 7-bit model and core::slice::memchr::memchr by a plain loop (stubs.rs)
+#[kani::proof]
+#[kani::unwind(70)]
+#[kani::stub(encoding_rs::Encoding::decode, crate::stubs::decode_ascii_model)]
+#[kani::stub(core::slice::memchr::memchr, crate::stubs::memchr_model)]
+fn c20_cgfx_truncated_prefixes() {
+    let sel: u8 = kani::any();
+    kani::assume(sel < 6);
+    let img = cgfx_image();
+    let err = match sel {
+        0 => keep(mila::cgfx::read(&img[..0])).is_none(),
+        1 => keep(mila::cgfx::read(&img[..0x13])).is_none(),
+        2 => keep(mila::cgfx::read(&img[..0x9B])).is_none(),
+        3 => keep(mila::cgfx::read(&img[..0x122])).is_none(),
+        4 => keep(mila::cgfx::read(&img[..0x150])).is_none(),
+        _ => keep(mila::cgfx::read(&img[..CGFX_LEN - 1])).is_none(),
+    };
+    assert!(err, "C20: a prefix that cuts into the texture payload must yield an error");
+    kani::cover!(sel == 5);
 }
 
 // @tier quick
@@ -256,10 +318,12 @@ fn c20_truncated_prefixes() {
 // @expect witness
 // @bounds the CTPK single-texture image
 // @cbmc --max-field-sensitivity-array-size 512
+// @unwindset memchr=400
 // @claims vacuity witness for the C20 harnesses (must FAIL at its final assert)
 #[kani::proof]
 #[kani::unwind(70)]
 #[kani::stub(encoding_rs::Encoding::decode, crate::stubs::decode_ascii_model)]
+#[kani::stub(core::slice::memchr::memchr, crate::stubs::memchr_model)]
 fn c20_witness() {
     let img = ctpk_image();
     let t = keep(mila::ctpk::read(&img)).unwrap();
